@@ -432,6 +432,15 @@ def nanops_dispatch(tree):
             fail(call, "kwargs keys")
         rows.append((cond, d["skipna"], d["initial_value"], ast.unparse(cr[0].value)))
 
+    # how the results of the pieces are merged: the skipna flag of the second stage
+    ms = [n for n in ast.walk(fns[0]) if isinstance(n, ast.Assign) and isinstance(n.targets[0], ast.Name) and n.targets[0].id == "merge_skipna"]
+    merge = ast.unparse(ms[0].value) if len(ms) == 1 else "skipna"
+    rec = [n for n in ast.walk(fns[0]) if isinstance(n, ast.Call) and isinstance(n.func, ast.Name) and n.func.id == "reduce_1d"]
+    if len(rec) != 1:
+        fail(fns[0], "exactly one second-stage reduce_1d call")
+    kw = {k.arg: ast.unparse(k.value) for k in rec[0].keywords}
+    second_stage = f"reduce_1d({', '.join(ast.unparse(a) for a in rec[0].args)}, skipna={kw.get('skipna')}, n_threads={kw.get('n_threads')}) with merge_skipna = {merge}"
+    rows.append(("second stage", second_stage, "", ""))
     node = chains[0]
     while True:
         branch(ast.unparse(node.test), node.body)
